@@ -40,6 +40,7 @@ pub struct SymbolMap {
     name_to_class: HashMap<EcoString, RecordId>,
     name_to_def: HashMap<EcoString, RecordId>,
     name_to_multiclass: HashMap<EcoString, MulticlassId>,
+    name_to_defset: HashMap<EcoString, DefsetId>,
     file_to_symbol_list: HashMap<FileId, Vec<SymbolId>>,
     pos_to_symbol_map: HashMap<FileId, IntervalMap<TextSize, SymbolId>>,
 }
@@ -135,6 +136,10 @@ impl SymbolMap {
 
     pub fn find_multiclass(&self, name: &EcoString) -> Option<MulticlassId> {
         self.name_to_multiclass.get(name).copied()
+    }
+
+    pub fn find_defset(&self, name: &EcoString) -> Option<DefsetId> {
+        self.name_to_defset.get(name).copied()
     }
 
     pub fn defm(&self, defm_id: DefmId) -> &Defm {
@@ -272,8 +277,10 @@ impl SymbolMap {
     }
 
     pub fn add_defset(&mut self, defset: Defset) -> DefsetId {
+        let name = defset.name.clone();
         let define_loc = defset.define_loc;
         let id = self.defset_list.alloc(defset);
+        self.name_to_defset.insert(name, id);
         self.file_to_symbol_list
             .entry(define_loc.file)
             .or_default()
